@@ -12,6 +12,7 @@
 
 #include "myth_sched_func.h"
 #include "myth_sync_func.h"
+#include "myth_verif.h"
 
 static int myth_should_wrap_pthread(void) {
   static int s_myth_should_wrap_pthread = -1;
@@ -783,8 +784,10 @@ static int myth_handle_PTHREAD_MUTEX_INITIALIZER(pthread_mutex_t * pm) {
   volatile int * magic_p = (volatile int *)&m->magic;
   int magic = * magic_p;
   if (magic != myth_mutex_magic_no) {
+    MYTH_VERIF_POINT(MTX_STATIC_INIT_BEFORE_CAS);
     if (magic != myth_mutex_magic_no_initializing
 	&& __sync_bool_compare_and_swap(magic_p, magic, myth_mutex_magic_no_initializing)) {
+      MYTH_VERIF_POINT(MTX_STATIC_INIT_CLAIMED);
       myth_mutex_t mi = MYTH_MUTEX_INITIALIZER;
       mi.magic = myth_mutex_magic_no_initializing;
       *m = mi;
